@@ -55,6 +55,10 @@ type Desc struct {
 	Seg         devsim.Seg          `json:"seg"`
 	ReadSize    int                 `json:"read_size"`
 	ReadDelayUs int                 `json:"read_delay_us"`
+	// Repeat > 0 (silent device only): the same operation is issued Repeat more times with
+	// RepeatMs as timeout; each must end with the timeout error and run nothing.
+	Repeat   int `json:"repeat,omitempty"`
+	RepeatMs int `json:"repeat_ms,omitempty"`
 }
 
 // ---- device ------------------------------------------------------------------------------------
@@ -347,6 +351,35 @@ func runOnce(d Desc) (mon.Result, bool) {
 	if res.Verdict == mon.Violated {
 		res.Events = map[string]interface{}{"firings": clipFirings(firings), "chunks": clipChunks(j.chunks), "transport": tail(log, 40),
 			"error": fmt.Sprint(opErr)}
+	}
+	if res.Verdict == mon.Held && d.Repeat > 0 && len(j.chunks) == 0 && errors.Is(opErr, util.ErrTimeoutError) {
+		// burst of timeouts on a silent device: many expiries per case, each racing with the reader's exit
+		rt := time.Duration(d.RepeatMs) * time.Millisecond
+		for i := 0; i < d.Repeat; i++ {
+			ta := time.Now()
+			_, err := drv.SendWithCallbacks(d.Input, cbs, rt)
+			el := time.Since(ta)
+			rec.mu.Lock()
+			nf, nr := len(rec.firings), len(rec.readT)
+			rec.mu.Unlock()
+			switch {
+			case nr > 0:
+				return mon.Result{Verdict: mon.Violated, Key: "c18/harness-silent-device-spoke", Detail: "the silent device produced output"}, false
+			case nf > 0:
+				return j.bad("c18/fired-without-trigger:"+kind(d.CBs[rec.firings[0].Idx]), "repetition %d: a callback ran although the device never said anything", i), false
+			case !errors.Is(err, util.ErrTimeoutError):
+				return j.bad("c18/unexpected-error:"+errClass(fmt.Errorf("%v", err)), "repetition %d: nothing can complete but the operation returned %v", i, err), false
+			case el < rt-time.Millisecond:
+				return j.bad("c18/timeout-early", "repetition %d: timeout error after %v with a timeout of %v", i, el, rt), false
+			case el > rt+lateSlack:
+				if mon.LoadedSince(tCase) {
+					return mon.Result{Verdict: mon.Inconclusive, Detail: "timeout error late under load", Obs: j.obs}, false
+				}
+				return j.bad("c18/timeout-late", "repetition %d: timeout error after %v with a timeout of %v", i, el, rt), true
+			}
+			res.Obs["timeouts"]++
+			res.Obs["timeouts_in_bursts"]++
+		}
 	}
 	return res, j.timing
 }
